@@ -323,12 +323,14 @@ class Part(object):
         divs_per_beat = self.inv_beat_map(
             1 + self.beat_map(0)
         )  # find the divs per beat in the first measure
+        # number of beats in a bar, in the kind of beat the beat map counts
+        beats_idx = 2 if self._use_musical_beat else 0
         if (
             measures[0][1] - measures[0][0]
-            < self.time_signature_map(0)[0] * divs_per_beat
+            < self.time_signature_map(0)[beats_idx] * divs_per_beat
         ):
             measures[0][0] = (
-                measures[0][1] - self.time_signature_map(0)[0] * divs_per_beat
+                measures[0][1] - self.time_signature_map(0)[beats_idx] * divs_per_beat
             )
 
         if len(measures) == 0:  # no measures in the piece
@@ -382,12 +384,14 @@ class Part(object):
         divs_per_beat = self.inv_beat_map(
             1 + self.beat_map(0)
         )  # find the divs per beat in the first measure
+        # number of beats in a bar, in the kind of beat the beat map counts
+        beats_idx = 2 if self._use_musical_beat else 0
         if (
             measures[0][1] - measures[0][0]
-            < self.time_signature_map(0)[0] * divs_per_beat
+            < self.time_signature_map(0)[beats_idx] * divs_per_beat
         ):
             measures[0][0] = (
-                measures[0][1] - self.time_signature_map(0)[0] * divs_per_beat
+                measures[0][1] - self.time_signature_map(0)[beats_idx] * divs_per_beat
             )
 
         if len(measures) == 0:  # no measures in the piece
